@@ -30,7 +30,8 @@ struct Cache {
 		hist.clear();
 		hist[serial] = cur;
 	}
-	void advance(uint64_t toggle, int bulk)
+	// bulk >= 0: replace the bulk records by `bulk` records of each family in `fam` (bit 0 IPv4, bit 1 IPv6, bit 2 router keys)
+	void advance(uint64_t toggle, int bulk, int fam = 1)
 	{
 		for (int i = 0; i < wire::N_UREC; i++)
 			if (toggle >> i & 1) {
@@ -38,7 +39,11 @@ struct Cache {
 			}
 		if (bulk >= 0) {
 			for (auto it = cur.lower_bound(1000); it != cur.end();) it = cur.erase(it);
-			for (int i = 0; i < bulk; i++) cur.insert(1000 + i);
+			for (int i = 0; i < bulk; i++) {
+				if (fam & 1) cur.insert(wire::BULK4 + i);
+				if (fam & 2) cur.insert(wire::BULK6 + i);
+				if (fam & 4) cur.insert(wire::BULKK + i);
+			}
 		}
 		serial++;
 		hist[serial] = cur;
@@ -78,7 +83,7 @@ inline std::set<int> served(const std::set<int> &s, int ver)
 	if (ver != 0) return s;
 	std::set<int> r;
 	for (int id : s)
-		if (id >= 1000 || wire::urec(id).kind != 2) r.insert(id);
+		if (!wire::is_key(id)) r.insert(id);
 	return r;
 }
 
@@ -147,7 +152,7 @@ inline bool mutate(std::vector<OutPdu> &r, int mut, int pos, int ver, const std:
 		if (!reset_query && !held.empty()) { auto it = held.begin(); std::advance(it, seed % held.size()); id = *it; }
 		for (size_t i : pay) if (id < 0 && r[i].flags == 1) id = r[i].id;
 		if (id < 0) id = (int)(seed % wire::N_UREC);
-		if (ver == 0 && id < 1000 && wire::urec(id).kind == 2) id = 0;
+		if (ver == 0 && wire::is_key(id)) id = 0;
 		OutPdu p; p.b = wire::payload_pdu(ver, id, 1); p.id = id; p.flags = 1; p.payload = true;
 		bool in_resp = false;
 		for (size_t i : pay) if (r[i].id == id && r[i].flags == 1) in_resp = true;
